@@ -27,6 +27,7 @@ import (
 
 const c18Chain = "eth-main"
 const c18Sale = "0x00000000000000000000000000000000000000f7"
+const c18OtherDenom = "uusdc"
 
 type c18Lic struct {
 	denom  string
@@ -46,8 +47,8 @@ func TestC18_LicenceEscrowAndVesting(t *testing.T) {
 	evid.Check(t, 100, 500, func(t *rapid.T) {
 		salt := fmt.Sprintf("c18-%d", rapid.IntRange(0, 1<<30).Draw(t, "salt"))
 		c, err := chain.New(chain.Options{Salt: salt, Stakes: []int64{100_000_000, 100_000_000, 100_000_000}, Users: []string{"rich", "poor", "granter", "stranger"}, UserBalance: 1_000_000_000,
-			EvmChains:     []chain.EvmChain{{RefID: c18Chain, ChainID: 1}},
-			ExtraBalances: map[string]sdk.Coins{}})
+			EvmChains: []chain.EvmChain{{RefID: c18Chain, ChainID: 1}},
+			UserExtra: sdk.NewCoins(sdk.NewCoin(c18OtherDenom, sdkmath.NewInt(1_000_000_000)))})
 		if err != nil {
 			t.Fatalf("boot: %v", err)
 		}
@@ -93,7 +94,7 @@ func TestC18_LicenceEscrowAndVesting(t *testing.T) {
 				}
 				sums[m.denom].Add(sums[m.denom], m.amount)
 			}
-			for _, d := range []string{chain.BondDenom} {
+			for _, d := range []string{chain.BondDenom, c18OtherDenom} {
 				bal := c.App.BankKeeper.GetBalance(ctx, modAddr, d).Amount.BigInt()
 				want := sums[d]
 				if want == nil {
@@ -123,9 +124,13 @@ func TestC18_LicenceEscrowAndVesting(t *testing.T) {
 				if va.OriginalVesting.AmountOf(x.denom).BigInt().Cmp(x.amount) != 0 || va.StartTime != x.start.Unix() || va.EndTime != x.end.Unix() {
 					t.Fatalf("vesting account of %s: original %s start %d end %d, expected %s %d %d", a, va.OriginalVesting, va.StartTime, va.EndTime, x.amount, x.start.Unix(), x.end.Unix())
 				}
+				gifts := x.gifts // gifts are made in the bond denom
+				if x.denom != chain.BondDenom {
+					gifts = new(big.Int)
+				}
 				total := c.App.BankKeeper.GetBalance(ctx, sdk.MustAccAddressFromBech32(a), x.denom).Amount.BigInt()
-				if total.Cmp(new(big.Int).Add(x.amount, x.gifts)) != 0 {
-					t.Fatalf("licensee %s holds %s, expected licence %s + gifts %s", a, total, x.amount, x.gifts)
+				if total.Cmp(new(big.Int).Add(x.amount, gifts)) != 0 {
+					t.Fatalf("licensee %s holds %s %s, expected licence %s + gifts %s", a, total, x.denom, x.amount, gifts)
 				}
 				sctx := ctx.WithBlockTime(now)
 				spend := c.App.BankKeeper.SpendableCoins(sctx, sdk.MustAccAddressFromBech32(a)).AmountOf(x.denom).BigInt()
@@ -140,7 +145,7 @@ func TestC18_LicenceEscrowAndVesting(t *testing.T) {
 					num := new(big.Int).Mul(x.amount, big.NewInt(now.Unix()-x.start.Unix()))
 					vested = num.Div(num, big.NewInt(x.end.Unix()-x.start.Unix()))
 				}
-				want := new(big.Int).Add(vested, x.gifts)
+				want := new(big.Int).Add(vested, gifts)
 				diff := new(big.Int).Sub(spend, want)
 				if diff.CmpAbs(big.NewInt(1)) > 0 {
 					t.Fatalf("licensee %s can spend %s at %s, linear schedule gives %s (start %s end %s amount %s gifts %s)", a, spend, now, want, x.start, x.end, x.amount, x.gifts)
@@ -172,14 +177,18 @@ func TestC18_LicenceEscrowAndVesting(t *testing.T) {
 			cl := rapid.SampledFrom(clients).Draw(t, "client")
 			amt := rapid.OneOf(rapid.Int64Range(1, 1000), rapid.Int64Range(1_000_000, 50_000_000), rapid.Just(int64(5_000_000_000))).Draw(t, "amount")
 			months := uint32(rapid.SampledFrom([]int{0, 1, 6, 24, 120}).Draw(t, "months"))
-			ok, _ := deliver(t, creator, &palomatypes.MsgAddLightNodeClientLicense{Metadata: chain.MD(creator), ClientAddress: cl.Addr.String(), Amount: sdk.NewCoin(chain.BondDenom, sdkmath.NewInt(amt)), VestingMonths: months})
-			log = append(log, fmt.Sprintf("licence(%s->%s,%d,%dm)=%v", creator.Name, cl.Name[len(cl.Name)-3:], amt, months, ok))
+			denom := chain.BondDenom
+			if rapid.IntRange(0, 2).Draw(t, "otherDenom") == 0 {
+				denom = c18OtherDenom
+			}
+			ok, _ := deliver(t, creator, &palomatypes.MsgAddLightNodeClientLicense{Metadata: chain.MD(creator), ClientAddress: cl.Addr.String(), Amount: sdk.NewCoin(denom, sdkmath.NewInt(amt)), VestingMonths: months})
+			log = append(log, fmt.Sprintf("licence(%s->%s,%d%s,%dm)=%v", creator.Name, cl.Name[len(cl.Name)-3:], amt, denom, months, ok))
 			a := cl.Addr.String()
 			if ok {
 				if hasAccount[a] || pending[a] != nil || active[a] != nil {
 					t.Fatalf("licence created for %s which already had an account or a licence\nhistory: %v", a, log)
 				}
-				pending[a] = &c18Lic{denom: chain.BondDenom, amount: big.NewInt(amt), months: months}
+				pending[a] = &c18Lic{denom: denom, amount: big.NewInt(amt), months: months}
 				hasAccount[a] = true
 			}
 		}
